@@ -148,3 +148,27 @@ Definition legacy_ok (w : nat * pv) : bool :=
   end.
 Lemma otlp_legacy_ok_l : forallb legacy_ok legacy_witnesses = true.
 Proof. vm_compute. reflexivity. Qed.
+
+(* ---- what the public API builds for an empty Bytes value (pcommon.NewValueBytes / Value.SetEmptyBytes):
+   a oneof wrapper holding an EMPTY NON-NIL slice ---- *)
+Definition api_empty_bytes : pv := VSome (VBytes []).
+Definition any_with (x : pv) : pv := VMsg [VNone; VNone; VNone; VNone; VNone; VNone; x].
+
+Lemma api_empty_bytes_canonical_l (S : schema) d g :
+  fcd d = COneof g -> fty d = TBytes -> canon_slot S d api_empty_bytes = true.
+Proof. intros Hc Ht. unfold canon_slot, canon_slot_with, api_empty_bytes. rewrite Hc, Ht. reflexivity. Qed.
+
+Lemma api_empty_bytes_roundtrip_l :
+  let m := m_common_v1_AnyValue in let w := any_with api_empty_bytes in
+  canonical OtlpSchema m w = true
+  /\ decode OtlpSchema m (encode OtlpSchema m w) = Some w
+  /\ unmarshal_json OtlpSchema OtlpJsonDecoders OtlpEnums m (to_json OtlpSchema m w) = Some w
+  /\ option_map (encode OtlpSchema m) (unmarshal_json OtlpSchema OtlpJsonDecoders OtlpEnums m (to_json OtlpSchema m w))
+     = Some (encode OtlpSchema m w).
+Proof. repeat split; vm_compute; reflexivity. Qed.
+
+(* ---- the public JSON entry point ---- *)
+Lemma unmarshal_json_spec_l (S : schema) D E m j :
+  (jv_utf8 j = true -> unmarshal_json S D E m j = of_json S D E m j)
+  /\ (jv_utf8 j = false -> unmarshal_json S D E m j = None).
+Proof. unfold unmarshal_json. split; intros ->; reflexivity. Qed.
